@@ -87,6 +87,10 @@ func (g *gen) raw() string {
 }
 
 func (g *gen) oid() string {
+	if g.chance(7) {
+		// arcs around what an int can hold: the largest fits, the next ones must be refused (not wrapped, not dropped)
+		return fmt.Sprintf("1.2.3.%s.5", g.pick("9223372036854775807", "9223372036854775808", "18446744073709551615", "18446744073709551616", "4294967296", "2147483648"))
+	}
 	switch g.r.Intn(4) {
 	case 0:
 		return fmt.Sprintf("1.2.%d.%d", g.r.Intn(300), g.r.Int63n(1<<40))
@@ -100,6 +104,9 @@ func (g *gen) oid() string {
 
 func (g *gen) generalName(kinds ...string) [2]string {
 	t := kinds[g.r.Intn(len(kinds))]
+	if g.chance(3) {
+		return [2]string{"-", "typeless.example"} // an entry without a "type" key
+	}
 	// values that are the zero value of their Go type (all-zero address, empty text) are names like any other
 	if g.chance(12) {
 		if t == "ip" {
@@ -439,7 +446,10 @@ func (g *gen) cfg(name string) (Cfg, []string) {
 	subj, keys := g.subject(n)
 	c := Cfg{Subject: subj, KeyAlg: g.keyAlg()}
 	if g.chance(35) {
-		c.Serial = []int64{1, 127, 128, 255, 256, 32767, 32768, 1<<63 - 1, 1 << 62, 4294967296}[g.r.Intn(10)]
+		c.Serial = []int64{1, 127, 128, 255, 256, 32767, 32768, 1<<63 - 1, 1 << 62, 4294967296, 9007199254740993, 1234567890123456789, 9223372036854775296}[g.r.Intn(13)]
+	} else if g.chance(5) {
+		// beyond what the configuration's integer type holds: must be refused, not wrapped
+		c.SerialBig = g.pick("9223372036854775808", "18446744073709551615", "18446744073709551616", "340282366920938463463374607431768211456")
 	}
 	if g.chance(25) {
 		c.IssuerUID = g.pick("!empty", "!null", "!binary:AQIDBA==", binary(g.bytesN(g.r.Intn(300)+1)))
